@@ -59,6 +59,7 @@ type Interp struct {
 	mset           map[string]*ssa.Function
 	pathObjs       int
 	curFrames      []*frame
+	dbgStack       []*ssa.Function
 	initPkg        *ssa.Package
 	initCache      map[*ssa.Package]map[*ssa.Global]Value
 	specLogs       []*writeLog
@@ -96,6 +97,7 @@ func (in *Interp) ResetPath() {
 	in.depth = 0
 	in.specLogs, in.specGuards, in.specStepLimit = nil, nil, 0
 	in.curFrames = nil
+	in.dbgStack = nil
 	in.E.NoFork = 0
 	in.World = NewWorld()
 }
@@ -118,7 +120,19 @@ func (in *Interp) goPanic(pos token.Pos, msg string, val Value) {
 	panic(&GoPanic{Val: val, Pos: in.posOf(pos), Msg: msg})
 }
 
+var unsuppSeen = map[string]bool{}
+
 func (in *Interp) unsupp(format string, args ...interface{}) {
+	if os.Getenv("GOSYM_UNSUPP_STACK") != "" {
+		msg := fmt.Sprintf(format, args...)
+		if !unsuppSeen[msg] {
+			unsuppSeen[msg] = true
+			fmt.Fprintf(os.Stderr, "UNSUPP %s\n", msg)
+			for i, d := len(in.dbgStack)-1, 0; i >= 0 && d < 14; i, d = i-1, d+1 {
+				fmt.Fprintf(os.Stderr, "    at %s\n", in.dbgStack[i].String())
+			}
+		}
+	}
 	in.E.Unsupp(format, args...)
 }
 
@@ -411,6 +425,8 @@ func (in *Interp) callFunction(fn *ssa.Function, args []Value, env []Value, pos 
 	in.depth++
 	defer func() { in.depth-- }()
 	fr := &frame{in: in, fn: fn, env: make(map[ssa.Value]Value, 16)}
+	in.dbgStack = append(in.dbgStack, fn)
+	defer func() { in.dbgStack = in.dbgStack[:len(in.dbgStack)-1] }()
 	for i, p := range fn.Params {
 		if i < len(args) {
 			fr.env[p] = args[i]
